@@ -234,7 +234,7 @@ Section RunMode.
   Variable selectors_ok : list (ustring * pval) -> pval -> result bool.
   Hypothesis Hflip : vr_ref_flip_unreg vr = true.
   Variable ids : list ustring.
-  Hypothesis Hclosed : closed_ok vr w ids = true.
+  Hypothesis Hclosed : closed_oki vr w ids = true.
 
   Notation RUN := (run vr ev w pattern_ok selectors_ok).
 
@@ -257,7 +257,7 @@ Section RunMode.
     - cbn [run] in H. discriminate.
     - cbn [run] in H |- *.
       destruct (find_class (wclasses w) kid) as [c |] eqn:Ef; try discriminate.
-      pose proof (ids_class_ok vr w ids Hclosed kid c Hm Ef) as Hok. unfold class_ok in Hok.
+      pose proof (ids_class_oki vr w ids Hclosed kid c Hm Ef) as Hok. unfold class_oki in Hok.
       apply andb_true_iff in Hok. destruct Hok as [Hok _]. apply andb_true_iff in Hok. destruct Hok as [Hok Hinit].
       apply andb_true_iff in Hok. destruct Hok as [Hnd Hslots]. apply nodupb_NoDup in Hnd.
       destruct (amem (u "_valid_refs") kw || amem (u "allow_custom") kw || amem (u "interoperability") kw || amem (u "self") kw);
@@ -278,6 +278,8 @@ Section RunMode.
                               construct_generic vr ev w pattern_ok selectors_ok rc rp ro (S f) c b interop
                                 (filter (fun kv => negb (mem_ustr (fst kv) names) ||
                                           (if vr_positional_none vr then negb (jvalue_eqb (snd kv) JNull) else truthy (snd kv))) kw) [] vrf
+                            | IIndicatorPatternVersion =>
+                              construct_generic vr ev w pattern_ok selectors_ok rc rp ro (S f) c b interop (ind_kw kw) [] vrf
                             | _ => Unmodelled
                             end) = construct_generic vr ev w pattern_ok selectors_ok rc rp ro (S f) c b interop kw1 [] vrf) /\
                 match obj, cfamily c, cver c with
@@ -291,13 +293,31 @@ Section RunMode.
                   else Ok obj
                 | _, _, _ => Ok obj
                 end = Ok o).
-      { destruct (cinit c) as [| names | | | | |] eqn:Ei; try discriminate.
+      { unfold ind_ok in Hinit.
+        destruct (cinit c) as [| names | | | | |] eqn:Ei; cbn [init_ok orb] in Hinit; try discriminate.
         - match type of H with match ?g with _ => _ end = _ => destruct g as [obj | |] eqn:Eg; try discriminate end.
           exists kw, obj. repeat split; auto.
         - match type of H with match ?g with _ => _ end = _ => destruct g as [obj | |] eqn:Eg; try discriminate end.
           eexists; exists obj. split; [| split; [exact Eg | split; [intros b; reflexivity | exact H]]].
           unfold plain_dict in *. apply forallb_forall. intros x Hx. apply filter_In in Hx. destruct Hx as [Hx _].
           rewrite forallb_forall in Hp. apply Hp. exact Hx.
+        - change (match construct_generic vr ev w pattern_ok selectors_ok rc rp ro (S f) c a interop (ind_kw kw) [] vrf with
+                  | Ok obj => match obj, cfamily c, cver c with
+                              | PObject ocid inner dfl hc, FSco, V21 =>
+                                if amem (u "id") kw then Ok obj
+                                else if existsb (fun p => amem p inner) (cidcontrib c) then
+                                  match ctype c with
+                                  | Some t => Ok (PObject ocid (aset (u "id") (PJ (JStr (t ++ u "--" ++ e_uuid5 ev))) inner) dfl hc)
+                                  | None => Unmodelled
+                                  end
+                                else Ok obj
+                              | _, _, _ => Ok obj
+                              end
+                  | Err e => Err e
+                  | Unmodelled => Unmodelled
+                  end = Ok o) in H.
+          match type of H with match ?g with _ => _ end = _ => destruct g as [obj | |] eqn:Eg; try discriminate end.
+          exists (ind_kw kw), obj. split; [apply ind_kw_plain; exact Hp |]. split; [exact Eg |]. split; [intros b; reflexivity | exact H].
         - match type of H with match ?g with _ => _ end = _ => destruct g as [obj | |] eqn:Eg; try discriminate end.
           exists kw, obj. repeat split; auto.
         - match type of H with match ?g with _ => _ end = _ => destruct g as [obj | |] eqn:Eg; try discriminate end.
@@ -322,10 +342,13 @@ Section RunMode.
                          construct_generic vr ev w pattern_ok selectors_ok rc rp ro (S f) c a' interop
                            (filter (fun kv => negb (mem_ustr (fst kv) names) ||
                                      (if vr_positional_none vr then negb (jvalue_eqb (snd kv) JNull) else truthy (snd kv))) kw) [] vrf
+                       | IIndicatorPatternVersion =>
+                         construct_generic vr ev w pattern_ok selectors_ok rc rp ro (S f) c a' interop (ind_kw kw) [] vrf
                        | _ => Unmodelled
                        end) = Ok (PObject (cid c) S0 (defaulted_names c S0) false)).
       { rewrite (Hsame a'). exact Hcg'. }
-      destruct (cinit c); try discriminate; rewrite Hgoal; exact Hpost.
+      destruct (cinit c); try discriminate; try (rewrite Hgoal; exact Hpost).
+      unfold ind_kw in Hgoal. cbv zeta in Hgoal |- *. rewrite Hgoal. exact Hpost.
   Qed.
 End RunMode.
 
@@ -341,7 +364,7 @@ Section Flag.
   Hypothesis Hpad : vr_year_pad vr = true.
   Hypothesis Hflip : vr_ref_flip_unreg vr = true.
   Variable ids : list ustring.
-  Hypothesis Hclosed : closed_ok vr w ids = true.
+  Hypothesis Hclosed : closed_oki vr w ids = true.
 
   Notation RUN := (run vr ev w pattern_ok selectors_ok).
 
@@ -360,12 +383,12 @@ Section Flag.
     (pval_has_custom o = false <-> exists o', RUN fuel (RConstruct kid false interop (omem o) vrefs) = Ok o').
   Proof.
     intros fuel kid interop kw vrefs o Hm Hp Hid H.
-    destruct (run_construct_idem vr ev w pattern_ok selectors_ok Hpad ids (closed_ok_weaken vr w ids Hclosed) fuel kid true interop kw vrefs o Hm Hp Hid H)
+    destruct (run_construct_idem vr ev w pattern_ok selectors_ok Hpad ids (closed_oki_weaken vr w ids Hclosed) fuel kid true interop kw vrefs o Hm Hp Hid H)
       as [_ [_ [Hre Hpo]]].
     split.
     - intros Hh.
       pose proof (run_mode vr ev w pattern_ok selectors_ok Hflip ids Hclosed fuel kid true false interop kw vrefs o Hm Hp H Hh) as Hs.
-      destruct (run_construct_idem vr ev w pattern_ok selectors_ok Hpad ids (closed_ok_weaken vr w ids Hclosed) fuel kid false interop kw vrefs o Hm Hp Hid Hs)
+      destruct (run_construct_idem vr ev w pattern_ok selectors_ok Hpad ids (closed_oki_weaken vr w ids Hclosed) fuel kid false interop kw vrefs o Hm Hp Hid Hs)
         as [_ [_ [Hre' _]]].
       exists o. exact Hre'.
     - intros [o' Hs].
